@@ -64,10 +64,10 @@ func c09Run(c *Ctx) {
 			lengths = append(lengths, n)
 		}
 	} else {
-		for n := 0; n <= 300; n++ {
+		for n := 0; n <= 1100; n++ {
 			lengths = append(lengths, n)
 		}
-		for _, n := range []int{511, 512, 513, 1023, 1024, 1025, 2047, 2048, 4095, 4096} {
+		for _, n := range []int{2047, 2048, 2049, 4095, 4096} {
 			lengths = append(lengths, n)
 		}
 	}
@@ -142,6 +142,7 @@ func c09Run(c *Ctx) {
 		}
 	}
 	Flags{}.Apply()
+	c09History(c, keys)
 	// ---- (2) corruption: every single-byte substitution and every truncation of ciphertexts; every
 	// key differing in one byte
 	if true {
@@ -240,6 +241,101 @@ func c09Run(c *Ctx) {
 	// ---- (3) end to end through the CLI: redact --encrypt, then decrypt every distinct ciphertext found
 	// at a SECRET position
 	c09CLI(c)
+}
+
+// c09History: what a process has encrypted before must not change what a value encrypts / decrypts to.
+// (a) plaintexts that ARE ciphertexts of the same key (the output of an earlier --encrypt run fed in again): every
+// length 0..200; the emitted text must decrypt to the text that was given, not to what that text decrypts to.
+// (b) one in-process history of 12 000 (thorough 150 000) distinct short values through the redaction path, then
+// the first values again: each must decrypt to itself and get the ciphertext it got before.
+func c09History(c *Ctx, keys [][]byte) {
+	if c.NShards > 1 && c.Shard > 1 {
+		return
+	}
+	key := keys[c.Shard%2]
+	Flags{Y: true, Key: key}.Apply()
+	defer Flags{}.Apply()
+	through := func(pt string) (string, string) {
+		in := LO("t", LO("$date", LS("2024-05-01T10:00:00.123+00:00")), "s", LS("I"), "c", LS("COMMAND"), "id", LN("1"), "ctx", LS("c"), "msg", LS("Slow query"),
+			"attr", LO("ns", LS("d.c"), "command", LO("find", LS("c"), "filter", LO("fld", LS(pt)), "$db", LS("d"))))
+		out, ok, pv := redactLine(in.JSON())
+		c.Eval(1)
+		if pv != nil || !ok {
+			return "", "the line is rejected"
+		}
+		j, err := ParseJSON([]byte(out))
+		if err != nil {
+			return "", "unparsable output"
+		}
+		o := follow(j, []int{6, 1, 1, 0})
+		if o == nil || o.Kind != JStr {
+			return "", "the leaf is not a string"
+		}
+		raw, err := base64.StdEncoding.Strict().DecodeString(o.Str)
+		if err != nil {
+			return o.Str, "the emitted text is not standard base64"
+		}
+		b, err := Decrypt(raw, key)
+		if err != nil {
+			return o.Str, fmt.Sprintf("the emitted text does not decrypt (%v)", err)
+		}
+		if string(b) != pt {
+			return o.Str, fmt.Sprintf("the emitted text decrypts to %q, not to the literal %q", trunc(string(b), 60), trunc(pt, 60))
+		}
+		return o.Str, ""
+	}
+	for n := 0; n <= 200; n++ {
+		inner := c09Classes[0].text(n)
+		ct, err := Encrypt([]byte(inner), key)
+		if err != nil {
+			continue
+		}
+		p2 := base64.StdEncoding.EncodeToString(ct)
+		c.Distinct(fmt.Sprintf("own-ciphertext/%d/%d", c.Shard, n))
+		if _, bad := through(p2); bad != "" {
+			c.Violate("roundtrip:line:own-ciphertext", fmt.Sprintf("a literal that is itself a ciphertext under the same key (of a %d-byte text): %s", n, bad), int64(n),
+				map[string]any{"kind": "own-ciphertext", "inner_length": n, "literal": p2}, nil)
+		}
+		// and at the API
+		ct2, err := Encrypt([]byte(p2), key)
+		if b, e := Decrypt(ct2, key); err != nil || e != nil || string(b) != p2 {
+			c.Violate("roundtrip:api:own-ciphertext", fmt.Sprintf("Decrypt(Encrypt(p)) != p for p = base64 of a ciphertext under the same key (inner length %d)", n), int64(n), map[string]any{"kind": "own-ciphertext-api", "inner_length": n}, nil)
+		}
+		c.Eval(1)
+	}
+	N := 12000
+	if c.Thorough() {
+		N = 150000
+	}
+	first := make([]string, N)
+	val := func(i int) string { return fmt.Sprintf("user-%d@hist", i) }
+	for i := 0; i < N; i++ {
+		ctText, bad := through(val(i))
+		if bad != "" {
+			c.Violate("history:wrong-ciphertext", fmt.Sprintf("value %d of a history of distinct values: %s", i, bad), int64(i), map[string]any{"kind": "c09-history", "index": i}, nil)
+			break
+		}
+		first[i] = ctText
+	}
+	again := 0
+	for i := 0; i < N; i++ {
+		if i >= 5000 && i%7 != 0 {
+			continue
+		}
+		again++
+		ctText, bad := through(val(i))
+		if bad != "" {
+			c.Violate("history:wrong-ciphertext-on-repeat", fmt.Sprintf("after %d distinct values were encrypted in this process, value %d is met again: %s", N, i, bad), int64(i), map[string]any{"kind": "c09-history", "index": i, "distinct_values": N}, nil)
+			break
+		}
+		if ctText != first[i] {
+			c.Violate("history:ciphertext-changes", fmt.Sprintf("after %d distinct values, value %d gets another ciphertext than the first time", N, i), int64(i), map[string]any{"kind": "c09-history", "index": i, "distinct_values": N}, nil)
+			break
+		}
+	}
+	c.Count("max:history_distinct_values", int64(N))
+	c.Count("history_values_met_again", int64(again))
+	c.Distinct(fmt.Sprintf("history/%d", c.Shard))
 }
 
 func c09CLI(c *Ctx) {
